@@ -36,6 +36,9 @@ pub struct SynFeatures {
     pub no_rle_header: usize,
     pub spare_symbols: usize,
     pub single_dist_code: bool,
+    pub single_dist_alias: bool,
+    pub mono_dist_refs: usize,
+    pub echo_refs: usize,
     pub no_dist_code: bool,
     pub trailing_garbage: usize,
     pub big_block: bool,
@@ -107,6 +110,15 @@ impl SynFeatures {
         }
         if self.single_dist_code {
             v.push("syn:single-dist-code");
+        }
+        if self.single_dist_alias {
+            v.push("syn:single-dist-code-unassigned-codeword");
+        }
+        if self.echo_refs > 0 {
+            v.push("syn:echo-references(non-nearest,high-entropy)");
+        }
+        if self.mono_dist_refs > 0 {
+            v.push("syn:one-distance-symbol-run");
         }
         if self.no_dist_code {
             v.push("syn:no-dist-code");
@@ -489,6 +501,56 @@ fn gen_tokens_token_mode(dna: &mut Dna, feat: &mut SynFeatures, max_plain: usize
         }
         feat.filler = true;
     }
+    // "echo": high-entropy bytes, then short copies of random pieces of them, then references
+    // to the ORIGINAL pieces although the copies are nearer. Every such reference is a
+    // non-nearest candidate of its hash chain, and chains over high-entropy data hold true
+    // hash collisions between the candidates.
+    if max_plain >= 30_000 && plain.is_empty() && dna.chance(6) {
+        let mut m = Mix::new(dna.u64());
+        let n_r = m.range(3000, 22000);
+        for _ in 0..n_r {
+            let b = m.u8();
+            plain.push(b);
+            toks.push(Tok::Lit(b));
+        }
+        let k = m.range(40, 500);
+        let long = m.chance(30);
+        let mut segs: Vec<(usize, u16)> = vec![];
+        for _ in 0..k {
+            let len = if long { m.range(3, 40) } else { m.range(4, 9) } as u16;
+            let s = m.below(n_r - len as usize);
+            let dist = plain.len() - s;
+            if dist > 32768 {
+                continue;
+            }
+            for i in 0..len as usize {
+                let b = plain[s + i];
+                plain.push(b);
+            }
+            toks.push(Tok::Ref { len, dist: dist as u32, irregular: false });
+            segs.push((s, len));
+            if m.chance(20) {
+                let b = m.u8();
+                plain.push(b);
+                toks.push(Tok::Lit(b));
+            }
+        }
+        for &(s, len) in segs.iter() {
+            let dist = plain.len() - s;
+            if dist > 32768 {
+                let b = m.u8();
+                plain.push(b);
+                toks.push(Tok::Lit(b));
+                continue;
+            }
+            for i in 0..len as usize {
+                let b = plain[s + i];
+                plain.push(b);
+            }
+            toks.push(Tok::Ref { len, dist: dist as u32, irregular: false });
+            feat.echo_refs += 1;
+        }
+    }
     for _ in 0..nruns {
         let count = match dna.weighted(&[35, 35, 20, 8, 2]) {
             0 => dna.range(0, 8),
@@ -502,12 +564,15 @@ fn gen_tokens_token_mode(dna: &mut Dna, feat: &mut SynFeatures, max_plain: usize
         let irregular_pct = [0u32, 0, 50, 100][dna.below(4)];
         let seed = dna.u64();
         let mut mix = Mix::new(seed);
+        // "mono" run: every reference of the run uses one distance symbol, so that blocks whose
+        // distance alphabet has a single used symbol (single-code tables) carry references
+        let mono: Option<usize> = if mix.chance(12) { Some([0usize, 0, 1, 3, 4, 9, 16, 29][mix.below(8)].max(mix.below(30) * mix.below(2))) } else { None };
         for _ in 0..count {
             // hot zone: within a few hundred bytes of a re-base position prefer maximum-length
             // and window-edge references at every alignment
             let nb = next_rebase(plain.len());
             let hot = plain.len() > 40_000 && (nb - plain.len() < 600 || plain.len() + 0x7e00 - nb < 300);
-            if hot && mix.chance(70) {
+            if hot && mono.is_none() && mix.chance(70) {
                 let len = if mix.chance(50) { 258 } else { pick_len(&mut mix) };
                 let dist = if mix.chance(50) {
                     (32768 - mix.below(12)).min(plain.len()) as u32
@@ -525,7 +590,20 @@ fn gen_tokens_token_mode(dna: &mut Dna, feat: &mut SynFeatures, max_plain: usize
             }
             if !plain.is_empty() && mix.chance(ref_pct) {
                 let len = pick_len(&mut mix);
-                let dist = pick_dist(&mut mix, plain.len());
+                let mut dist = pick_dist(&mut mix, plain.len());
+                if let Some(c) = mono {
+                    let base = DIST_BASE[c] as usize;
+                    if base > plain.len() {
+                        // the symbol's range is not reachable yet: a literal instead
+                        let b = if alpha == 256 { mix.u8() } else { b'a' + mix.below(alpha) as u8 };
+                        plain.push(b);
+                        toks.push(Tok::Lit(b));
+                        continue;
+                    }
+                    let d = (base + mix.below(1usize << DIST_EXTRA[c])).min(plain.len());
+                    dist = d as u32;
+                    feat.mono_dist_refs += 1;
+                }
                 let irregular = len == 258 && mix.chance(irregular_pct);
                 if dist as usize == plain.len() {
                     feat.dist_eq_pos += 1;
@@ -698,7 +776,7 @@ fn emit_dynamic_header(
         }
     } else {
         let n_used = dist_used.iter().filter(|&&b| b).count();
-        if n_used == 1 && opts.exotic && mix.chance(30) {
+        if n_used == 1 && opts.exotic && mix.chance(50) {
             dist_len = vec![0u8; 32];
             let s = dist_used.iter().position(|&b| b).unwrap();
             dist_len[s] = 1;
@@ -1160,9 +1238,10 @@ pub fn encode_tokens(
                 ll2.resize(288, 0);
                 let mut dl2 = dl.clone();
                 dl2.resize(32, 0);
-                let alias = feat.single_dist_code && has_refs && mix.chance(35);
+                let alias = feat.single_dist_code && has_refs && mix.chance(50);
                 if alias {
                     feat.poisoned = true;
+                    feat.single_dist_alias = true;
                 }
                 emit_tokens_poison(&mut w, btoks, &ll2, &dl2, poison, alias);
             }
